@@ -1,43 +1,122 @@
 ------------------------------- MODULE IsoGrowth -------------------------------
 (***************************************************************************)
-(* The semi-major-axis loops of Ellipse.fit_image (C20).                   *)
-(* sma is an integer in units of 1/100 px; geometric growth multiplies by  *)
-(* (100 + step)/100 (integer-rounded - the exact ratio does not matter for *)
-(* the properties), linear growth adds step.  Outward: fit at sma, append, *)
-(* grow, stop when sma >= maxsma, or when a failed fit (stop code 1, or two*)
-(* consecutive 5s) is met and there is no maxsma beyond it - otherwise go   *)
-(* on in non-iterative mode.  Inward: restart from the first isophote,     *)
-(* shrink until sma <= max(minsma, 1/2), optional central point, sort.     *)
-(* Stop codes are chosen nondeterministically.                             *)
-(* Properties: the sorted list is strictly increasing in sma; every sma is *)
-(* at most one growth step beyond maxsma and, except the central point,    *)
-(* above max(minsma, 1/2) shrunk by one step.                              *)
+(* The semi-major-axis loops of Ellipse.fit_image (C20), one action per    *)
+(* loop body, written after photutils/isophote/ellipse.py line by line.    *)
+(*                                                                         *)
+(* sma is represented by its EXPONENT k: sma = sma0 * (1 + step)^k for     *)
+(* geometric growth, sma0 + k * step for linear growth (k = 0 is the       *)
+(* starting ellipse, k > 0 the outward pass, k < 0 the inward pass).       *)
+(* A parameter record q carries                                            *)
+(*   HasMax, KMax : a maxsma was given; KMax >= 1 is the first exponent    *)
+(*                  whose sma is >= maxsma                                 *)
+(*   KMin         : >= 1, the first m whose sma at exponent -m is          *)
+(*                  <= max(minsma, 0.5)                                    *)
+(*   MinZero      : minsma = 0 (the central-pixel isophote is extracted)   *)
+(*   Variant      : "pinned" = the loop as it stood in the pinned tree,    *)
+(*                  "repaired" = an invalid outward fit ends the outward   *)
+(*                  pass (or the whole fit when nothing was fitted yet)    *)
+(*                                                                         *)
+(* One call of fit_isophote returns a stop code:                           *)
+(*   0 converged, 2 maxit reached, 4 non-iterative  -> valid, appended     *)
+(*   1 too many flagged points, -1 gradient failure -> valid, appended,    *)
+(*       then repaired by _fix_last_isophote (-1 becomes 5)                *)
+(*   3 no usable sample / harmonic fit failed        -> INVALID, NOT       *)
+(*       appended                                                          *)
+(* Outward body: a failed fit (code < 0 or 1) on the very first ellipse    *)
+(* returns an empty list ("No meaningful fit was possible"); two           *)
+(* consecutive 5s or a 1 (with more than two isophotes in the list) switch *)
+(* to non-iterative mode when a maxsma lies ahead, else end the outward    *)
+(* pass.  Then `isophote = isophote_list[-1]` and sma is grown from THAT   *)
+(* isophote: after an invalid fit this is the previous isophote, so the    *)
+(* pinned loop tries the very same sma again (for ever, when the ellipse   *)
+(* lies outside the frame), and with an empty list it raises IndexError.   *)
+(* Inward body: a negative code is repaired, code 3 ends the pass, sma     *)
+(* shrinks until it is <= max(minsma, 0.5).  minsma = 0 appends the        *)
+(* central isophote; the list is sorted.                                   *)
+(*                                                                         *)
+(* Which codes a fit can return is left open (outcome sets by zone: well   *)
+(* inside the frame, at its edge from KEdge on, completely outside from    *)
+(* KOut on); TLC explores every combination.                               *)
+(* Properties: Termination (liveness, under weak fairness), NoCrash, and   *)
+(* for the returned list: strictly increasing, contiguous exponents        *)
+(* around 0, within the [minsma, maxsma] exponents, central isophote iff   *)
+(* minsma = 0.  The pinned variant violates Termination and NoCrash (both  *)
+(* reproduced on the pinned tree); the repaired variant satisfies all.     *)
 (***************************************************************************)
 EXTENDS Integers, Sequences, FiniteSets, FiniteSetsExt, SequencesExt, TLC
-CONSTANTS Sma0, Step, Linear, MinSma, MaxSma, Codes, MaxLen
-VARIABLES phase, sma, list, noiter
-vars == <<phase, sma, list, noiter>>
-Grow(s) == IF Linear THEN s + Step ELSE (s * (100 + Step)) \div 100
-Shrink(s) == IF Linear THEN s - Step ELSE (s * 100) \div (100 + Step)
-Floor == Max({MinSma, 50})
-Init == phase = "out" /\ sma = Sma0 /\ list = <<>> /\ noiter = FALSE
-Out(code) ==
-  /\ phase = "out" /\ Len(list) < MaxLen
-  /\ LET l2 == Append(list, [sma |-> sma, code |-> IF noiter THEN 4 ELSE code])
-         failed == ~noiter /\ (code = 1 \/ (code = 5 /\ Len(list) >= 2 /\ list[Len(list)].code = 5)) /\ Len(l2) > 2
-     IN /\ list' = l2
-        /\ IF failed /\ ~(MaxSma > sma) THEN phase' = "in" /\ sma' = Shrink(l2[1].sma) /\ noiter' = noiter
-           ELSE /\ noiter' = (noiter \/ failed)
-                /\ IF Grow(sma) >= MaxSma THEN phase' = "in" /\ sma' = Shrink(l2[1].sma)
-                   ELSE phase' = "out" /\ sma' = Grow(sma)
-In(code) ==
-  /\ phase = "in" /\ Len(list) < 2 * MaxLen
-  /\ IF sma <= 0 \/ code = 3 THEN phase' = "done" /\ UNCHANGED <<sma, list, noiter>>
-     ELSE /\ list' = Append(list, [sma |-> sma, code |-> code]) /\ UNCHANGED noiter
-          /\ IF Shrink(sma) <= Floor THEN phase' = "done" /\ sma' = sma ELSE phase' = "in" /\ sma' = Shrink(sma)
-Next == \E c \in Codes : Out(c) \/ In(c)
-Spec == Init /\ [][Next]_vars
-Smas == {list[k].sma : k \in 1..Len(list)}
-NoDuplicates == Cardinality(Smas) = Len(list)          \* sorting gives a strictly increasing list
-WithinBounds == \A k \in 1..Len(list) : list[k].sma < Grow(MaxSma) /\ list[k].sma > Shrink(Floor) - 1
+CONSTANTS HasMax, KMax, KMin, MinZero, KEdge, KOut, Variant
+VARIABLES phase, k, list, noiter
+vars == <<phase, k, list, noiter>>
+Central == -1000
+Par == [HasMax |-> HasMax, KMax |-> KMax, KMin |-> KMin, MinZero |-> MinZero, Variant |-> Variant]
+Rec(e, c) == [k |-> e, code |-> c]
+
+Init == phase = "out" /\ k = 0 /\ list = <<>> /\ noiter = FALSE
+
+Finish(l) == phase' = "done" /\ list' = l /\ UNCHANGED <<k, noiter>>
+ToInward(l, ni) == phase' = "in" /\ k' = l[1].k - 1 /\ list' = l /\ noiter' = ni
+Advance(q, l, ni) == LET nk == Last(l).k + 1 IN
+                     IF q.HasMax /\ nk >= q.KMax THEN ToInward(l, ni)
+                     ELSE phase' = "out" /\ k' = nk /\ list' = l /\ noiter' = ni
+
+\* one pass through the body of the outward `while True` loop; c = stop code returned by fit_isophote at exponent k
+FitOut(q, c) ==
+  /\ phase = "out"
+  /\ (noiter <=> c = 4)                          \* non-iterative mode returns code 4, and nothing else does
+  /\ LET valid == c # 3
+         l1 == IF valid THEN Append(list, Rec(k, c)) ELSE list
+     IN IF c < 0 \/ c = 1
+        THEN IF Len(l1) = 1 THEN Finish(<<>>)     \* "No meaningful fit was possible": empty list
+             ELSE LET fc == IF c < 0 THEN 5 ELSE c
+                      l2 == [l1 EXCEPT ![Len(l1)].code = fc]                      \* _fix_last_isophote(isophote_list, -1)
+                      two == Len(l2) > 2 /\ ((fc = 5 /\ l2[Len(l2) - 1].code = 5) \/ fc = 1)
+                  IN IF two /\ ~(q.HasMax /\ k < q.KMax) THEN ToInward(l2, noiter)
+                     ELSE Advance(q, l2, noiter \/ two)
+        ELSE IF ~valid /\ q.Variant = "repaired"
+             THEN (IF l1 = <<>> THEN Finish(<<>>) ELSE ToInward(l1, noiter))
+        ELSE IF l1 = <<>> THEN phase' = "crash" /\ UNCHANGED <<k, list, noiter>>   \* isophote_list[-1]: IndexError
+        ELSE Advance(q, l1, noiter)                                                \* (after an invalid fit: the same sma again)
+
+ToCentral(l) == phase' = "central" /\ list' = l /\ UNCHANGED <<k, noiter>>
+\* one pass through the body of the inward loop
+FitIn(q, c) ==
+  /\ phase = "in"
+  /\ c # 4
+  /\ LET valid == c # 3
+         l1 == IF valid THEN Append(list, Rec(k, c)) ELSE list
+         l2 == IF c < 0 THEN [l1 EXCEPT ![Len(l1)].code = 5] ELSE l1              \* _fix_last_isophote(isophote_list, 0)
+     IN IF c = 3 THEN ToCentral(l2)
+        ELSE LET nk == Last(l2).k - 1 IN
+             IF nk <= -q.KMin THEN ToCentral(l2) ELSE phase' = "in" /\ k' = nk /\ list' = l2 /\ UNCHANGED noiter
+
+\* the central-pixel isophote (only for minsma = 0) and the final sort
+CentralAndSort(q) ==
+  /\ phase = "central"
+  /\ LET l1 == IF q.MinZero THEN Append(list, Rec(Central, 0)) ELSE list
+     IN Finish(SortSeq(l1, LAMBDA a, b : a.k < b.k))
+
+\* ---- model checking: which codes can come back where --------------------------------------------------------------------
+OutCodes(e) == IF noiter THEN {4} ELSE IF e >= KOut THEN {3} ELSE IF e >= KEdge THEN {0, 1, 2, -1, 3} ELSE {0, 2, -1}
+InCodes == {0, 1, 2, -1, 3}
+Next == \/ \E c \in OutCodes(k) : FitOut(Par, c)
+        \/ \E c \in InCodes : FitIn(Par, c)
+        \/ CentralAndSort(Par)
+Spec == Init /\ [][Next]_vars /\ WF_vars(Next)
+
+TypeOK == /\ phase \in {"out", "in", "central", "done", "crash"}
+          /\ k \in Int /\ noiter \in BOOLEAN
+          /\ \A j \in 1..Len(list) : list[j].k \in Int /\ list[j].code \in {0, 1, 2, 4, 5, -1}
+NoCrash == phase # "crash"
+Termination == <>(phase \in {"done", "crash"})
+Ks(l) == {l[j].k : j \in 1..Len(l)} \ {Central}
+\* the returned list
+Returned(q, l) ==
+  /\ \A j \in 1..(Len(l) - 1) : l[j].k < l[j + 1].k                               \* strictly increasing semi-major axis
+  /\ \A j \in 1..Len(l) : l[j].code # -1                                           \* negative codes never leave fit_image
+  /\ l # <<>> => /\ 0 \in Ks(l)
+                 /\ Ks(l) = Min(Ks(l))..Max(Ks(l))                                 \* no gap, no duplicate
+                 /\ (q.HasMax => Max(Ks(l)) < Max({q.KMax, 1}))                             \* every sma < maxsma (beyond the start)
+                 /\ Min(Ks(l)) >= -Max({1, q.KMin - 1})                            \* every sma > max(minsma, 0.5) (beyond the first inward step)
+                 /\ ((\E j \in 1..Len(l) : l[j].k = Central) <=> q.MinZero)        \* central isophote iff minsma = 0
+ReturnedOK == phase = "done" => Returned(Par, list)
 =============================================================================
